@@ -212,6 +212,7 @@ theorem SRel.init {N : NumOps} (Q : QRel) (externs : List String) :
   strlib := ⟨rfl, by decide⟩
   front := ⟨Nat.zero_le _, Nat.zero_le _, Nat.zero_le _, Nat.zero_le _, Nat.zero_le _, Nat.zero_le _⟩
   pin := fun _ hp => by cases hp
+  pinR := fun _ hp => by cases hp
 
 theorem runChunk_rel {N : NumOps} (ρ : ExtOracle N) (hρ : OracleFlat ρ) (n : Nat) {b b' : Block} {D' : List DName}
     (h : VR [] (.b b) (.b b') D') {β : Inj} {σ σ' : State N} (hs : SRel VQ β σ σ') :
